@@ -92,19 +92,23 @@ type ModuleIdentity struct {
 
 // TcbInfoDoc describes a TCB Info document.
 type TcbInfoDoc struct {
-	TcbType    int // the document's tcbType member (0 in everything Intel has published so far; the level comparison is the same whatever it says)
-	ID         string
-	Version    int
-	IssueDate  time.Time
-	NextUpdate time.Time
-	Fmspc      string // rendered verbatim
-	PceID      string // rendered verbatim
-	Mrsigner   []byte
-	Attributes []byte
-	Mask       []byte
-	Identities []ModuleIdentity
-	Levels     []PlatformLevel
-	UpperHex   bool
+	// DateZone: issueDate / nextUpdate are spelled in this zone with a numeric offset (the same instants; nil = "Z")
+	DateZone *time.Location
+	// UnknownMembers: the signed document carries members a later schema revision might add (ignored by today's readers)
+	UnknownMembers bool
+	TcbType        int // the document's tcbType member (0 in everything Intel has published so far; the level comparison is the same whatever it says)
+	ID             string
+	Version        int
+	IssueDate      time.Time
+	NextUpdate     time.Time
+	Fmspc          string // rendered verbatim
+	PceID          string // rendered verbatim
+	Mrsigner       []byte
+	Attributes     []byte
+	Mask           []byte
+	Identities     []ModuleIdentity
+	Levels         []PlatformLevel
+	UpperHex       bool
 }
 
 func (d *TcbInfoDoc) hx(b []byte) string {
@@ -122,6 +126,26 @@ func js(v string) string {
 }
 
 func ts(t time.Time) string { return t.UTC().Format("2006-01-02T15:04:05Z") }
+
+// tsIn spells the instant t in the given zone, with a numeric offset (RFC 3339 allows both); nil = UTC with "Z".
+func tsIn(t time.Time, zone *time.Location) string {
+	if zone == nil {
+		return ts(t)
+	}
+	if y := t.In(zone).Year(); y < 1 || y > 9999 {
+		return ts(t) // (the last day of year 9999 has no spelling east of Greenwich)
+	}
+	return t.In(zone).Format("2006-01-02T15:04:05-07:00")
+}
+
+// unknownMembers are JSON members no version of the documents defines: a later schema revision adds members like these,
+// and a reader of today ignores them.
+func unknownMembers(on bool, where string) string {
+	if !on {
+		return ""
+	}
+	return `"x-` + where + `-added-later":{"note":"ignore me","list":[1,2,3]},"zz` + where + `":null,`
+}
 
 func comps(v [16]byte) string { return compsLabelled(v, [16]string{}) }
 
@@ -145,8 +169,8 @@ func compsLabelled(v [16]byte, types [16]string) string {
 // Render returns the canonical JSON of the tcbInfo member.
 func (d *TcbInfoDoc) Render() []byte {
 	var sb strings.Builder
-	fmt.Fprintf(&sb, `{"id":%s,"version":%d,"issueDate":%q,"nextUpdate":%q,"fmspc":%s,"pceId":%s,"tcbType":%d,"tcbEvaluationDataNumber":17,`,
-		js(d.ID), d.Version, ts(d.IssueDate), ts(d.NextUpdate), js(d.Fmspc), js(d.PceID), d.TcbType)
+	fmt.Fprintf(&sb, `{%s"id":%s,"version":%d,"issueDate":%q,"nextUpdate":%q,"fmspc":%s,"pceId":%s,"tcbType":%d,"tcbEvaluationDataNumber":17,`,
+		unknownMembers(d.UnknownMembers, "tcbinfo"), js(d.ID), d.Version, tsIn(d.IssueDate, d.DateZone), tsIn(d.NextUpdate, d.DateZone), js(d.Fmspc), js(d.PceID), d.TcbType)
 	fmt.Fprintf(&sb, `"tdxModule":{"mrsigner":%q,"attributes":%q,"attributesMask":%q},`, d.hx(d.Mrsigner), d.hx(d.Attributes), d.hx(d.Mask))
 	sb.WriteString(`"tdxModuleIdentities":[`)
 	for i, m := range d.Identities {
@@ -168,7 +192,7 @@ func (d *TcbInfoDoc) Render() []byte {
 			sb.WriteString(",")
 		}
 		tdx := compsShaped("tdxtcbcomponents", l.Tdx, l.TdxShape, l.TdxTypes)
-		fmt.Fprintf(&sb, `{"tcb":{%s"pcesvn":%d%s},"tcbDate":%q,"tcbStatus":%q}`,
+		fmt.Fprintf(&sb, `{%s"tcb":{%s"pcesvn":%d%s},"tcbDate":%q,"tcbStatus":%q}`, unknownMembers(d.UnknownMembers && i%2 == 0, "level"),
 			compsShaped("sgxtcbcomponents", l.Sgx, l.SgxShape, l.SgxTypes), l.PceSvn, strings.TrimSuffix(","+tdx, ","), dateOr(l.Date), l.Status)
 	}
 	sb.WriteString("]}")
@@ -210,6 +234,8 @@ type QeIdentityDoc struct {
 	RawIsvProdID   string // when non-empty, rendered verbatim as the isvprodid value
 	Levels         []QeLevel
 	UpperHex       bool
+	DateZone       *time.Location // see TcbInfoDoc.DateZone
+	UnknownMembers bool           // see TcbInfoDoc.UnknownMembers
 }
 
 func (d *QeIdentityDoc) hx(b []byte) string {
@@ -223,7 +249,7 @@ func (d *QeIdentityDoc) hx(b []byte) string {
 // Render returns the canonical JSON of the enclaveIdentity member.
 func (d *QeIdentityDoc) Render() []byte {
 	var sb strings.Builder
-	fmt.Fprintf(&sb, `{"id":%q,"version":%d,"issueDate":%q,"nextUpdate":%q,"tcbEvaluationDataNumber":17,`, d.ID, d.Version, ts(d.IssueDate), ts(d.NextUpdate))
+	fmt.Fprintf(&sb, `{%s"id":%q,"version":%d,"issueDate":%q,"nextUpdate":%q,"tcbEvaluationDataNumber":17,`, unknownMembers(d.UnknownMembers, "qeidentity"), d.ID, d.Version, tsIn(d.IssueDate, d.DateZone), tsIn(d.NextUpdate, d.DateZone))
 	prod := fmt.Sprint(d.IsvProdID)
 	if d.RawIsvProdID != "" {
 		prod = d.RawIsvProdID
@@ -234,7 +260,7 @@ func (d *QeIdentityDoc) Render() []byte {
 		if i > 0 {
 			sb.WriteString(",")
 		}
-		fmt.Fprintf(&sb, `{"tcb":{"isvsvn":%s},"tcbDate":%q,"tcbStatus":%q}`, svnText(l.Isvsvn, l.RawSvn), dateOr(l.Date), l.Status)
+		fmt.Fprintf(&sb, `{%s"tcb":{"isvsvn":%s},"tcbDate":%q,"tcbStatus":%q}`, unknownMembers(d.UnknownMembers && i%2 == 1, "qelevel"), svnText(l.Isvsvn, l.RawSvn), dateOr(l.Date), l.Status)
 	}
 	sb.WriteString("]}")
 	return []byte(sb.String())
